@@ -226,7 +226,7 @@ func ruleInterface(c *Ctx) {
 		}
 		var parts []string
 		for _, r := range sp.Ret {
-			parts = append(parts, reCallNum.ReplaceAllString(r.String(), ""))
+			parts = append(parts, reCallNum.ReplaceAllString(unwrapW(r.String()), ""))
 		}
 		got := strings.Join(parts, ",")
 		matched := false
